@@ -2,7 +2,7 @@
    output_manager.cpp, the interpolation splitter, format_interpolated_value) and the readers of Spec.v;
    the proofs are in Digits.v / Format.v / Convert.v / Segments.v / Print.v. *)
 From Coq Require Import List Arith Bool Ascii String ZArith NArith.
-From Cb Require Import C16.Model C16.Spec C16.Digits C16.Format C16.Convert C16.Segments C16.Print C16.Nested C16.NestedProofs.
+From Cb Require Import C16.Model C16.Spec C16.Digits C16.Format C16.Convert C16.Segments C16.Print C16.Nested C16.NestedProofs C16.FloatFmt.
 Import ListNotations.
 Local Open Scope char_scope.
 
@@ -143,6 +143,64 @@ Print Assumptions interp_zero_pad_keeps_sign_first.
 Example ex_zero_pad_negative : format_value (VInt (-255)) (s2l "05") = s2l "-0255".
 Proof. vm_compute. reflexivity. Qed.
 
+(* ---------------- {x:.Nf} : a double with N decimals ---------------- *)
+(* a double is given exactly as (-1)^neg * m * 2^e; [fix_q m e p] is the integer q printed as q / 10^p *)
+
+(* {x:[0][W].p[f]} is the fixed rendering right-aligned in W columns; {x} is the rendering with 6 decimals *)
+Theorem interp_float_spec : forall zero w p tc ng m e, tc = [] \/ tc = ["f"] ->
+  format_value (VFlt ng m e) (fspec zero w p tc) = ipad zero w (fixed ng m e p) /\
+  spec_supported (VFlt ng m e) (fspec zero w p tc) = true.
+Proof. exact interp_float_spec_l. Qed.
+Print Assumptions interp_float_spec.
+
+Theorem interp_float_default : forall ng m e, format_value (VFlt ng m e) [] = fixed ng m e 6.
+Proof. exact interp_float_default_l. Qed.
+Print Assumptions interp_float_default.
+
+(* the printed number is within half a unit of the last printed digit of the exact value ... *)
+Theorem float_fixed_half_ulp : forall m k p,
+  (2 * Z.abs (Z.of_N (fix_q m (Zneg k) p * 2 ^ Npos k) - Z.of_N (m * 10 ^ N.of_nat p)) <= Z.of_N (2 ^ Npos k))%Z.
+Proof. exact fix_q_half_ulp_l. Qed.
+Print Assumptions float_fixed_half_ulp.
+
+(* ... an exact tie goes to the even last digit, a value with at most p decimals and an integral value are exact *)
+Theorem float_fixed_tie_to_even : forall m k p,
+  (2 * ((m * 10 ^ N.of_nat p) mod 2 ^ Npos k) = 2 ^ Npos k)%N -> N.even (fix_q m (Zneg k) p) = true.
+Proof. exact fix_q_tie_even_l. Qed.
+Print Assumptions float_fixed_tie_to_even.
+
+Theorem float_fixed_exact_decimal : forall m k p,
+  ((m * 10 ^ N.of_nat p) mod 2 ^ Npos k = 0)%N -> (fix_q m (Zneg k) p * 2 ^ Npos k = m * 10 ^ N.of_nat p)%N.
+Proof. exact fix_q_exact_decimal_l. Qed.
+Print Assumptions float_fixed_exact_decimal.
+
+Theorem float_fixed_exact_integer : forall m e p, (0 <= e)%Z ->
+  fix_q m e p = (m * 10 ^ N.of_nat p * 2 ^ Z.to_N e)%N.
+Proof. exact fix_q_exact_l. Qed.
+Print Assumptions float_fixed_exact_integer.
+
+(* the text: sign, integer part without leading zeros, for p > 0 a point and exactly p digits; integer part and
+   fraction read back as q / 10^p and q mod 10^p *)
+Theorem float_fixed_shape : forall neg m e p,
+  exists ip fp,
+    fixed neg m e p = (if neg then ["-"] else []) ++ ip ++ (match p with O => [] | _ => "." :: fp end) /\
+    parse_base 10 ip = Some (fix_q m e p / 10 ^ N.of_nat p)%N /\ canonical_unsigned ip = true /\
+    List.length fp = p /\ forallb is_digit fp = true /\
+    option_map (from_digits 10) (chars_digits 10 fp) = Some (fix_q m e p mod 10 ^ N.of_nat p)%N.
+Proof. exact fixed_shape_l. Qed.
+Print Assumptions float_fixed_shape.
+
+(* 3.14159265358979 = 7074237752028906 * 2^-51; 2.5 and 0.125 are ties; -2.675 is below the tie *)
+Example ex_float :
+  format_value (VFlt false 7074237752028906 (-51)) (s2l ".2f") = s2l "3.14" /\
+  format_value (VFlt false 7074237752028906 (-51)) (s2l "8.3f") = s2l "   3.142" /\
+  format_value (VFlt false 7074237752028906 (-51)) [] = s2l "3.141593" /\
+  format_value (VFlt false 5 (-1)) (s2l ".0f") = s2l "2" /\
+  format_value (VFlt false 1 (-3)) (s2l ".2f") = s2l "0.12" /\
+  format_value (VFlt true 6023508938686005 (-51)) (s2l ".2f") = s2l "-2.67" /\
+  format_value (VFlt false 1 70) (s2l ".1f") = s2l "1180591620717411303424.0".
+Proof. vm_compute. repeat split; reflexivity. Qed.
+
 (* ---------------- the interpolation splitter ---------------- *)
 
 (* re-bracing the expression segments, re-doubling the braces of the text segments and restoring the
@@ -178,6 +236,7 @@ Print Assumptions interp_value_is_concat.
 Theorem interp_text_untouched : forall e t1 ex t2 v,
   plain_text t1 -> no_backslash t1 -> plain_text t2 -> no_braces ex ->
   lookup e (fst (split_colon ex)) = Some v ->
+  spec_supported v (match snd (split_colon ex) with Some f => f | None => [] end) = true ->
   eval_quoted e (t1 ++ "{" :: ex ++ "}" :: t2) =
   inl (t1 ++ format_value v (match snd (split_colon ex) with Some f => f | None => [] end) ++ t2).
 Proof. exact interp_text_untouched_l. Qed.
@@ -276,6 +335,7 @@ Print Assumptions nested_model_conservative.
 Theorem interp_nested_frame : forall e t1 ex t2 side v,
   plain_text t1 -> no_backslash t1 -> plain_text t2 -> no_braces ex ->
   mlookup e (fst (split_colon ex)) = inl (side, Some v) ->
+  spec_supported v (spec_of (snd (split_colon ex))) = true ->
   eval_quoted_m e (t1 ++ "{" :: ex ++ "}" :: t2) =
   inl (side, Some (t1 ++ format_value v (spec_of (snd (split_colon ex))) ++ t2)).
 Proof. exact interp_nested_frame_l. Qed.
@@ -302,7 +362,7 @@ Proof. exact eval_segs_m_error_l. Qed.
 Print Assumptions interp_nested_error_stops.
 
 (* println(f(..)) : what the call writes, then the text of its value; println("..{f(..)}..") likewise *)
-Theorem print_call_output_then_value : forall e n side v, mlookup e n = inl (side, Some v) ->
+Theorem print_call_output_then_value : forall e n side v, mlookup e n = inl (side, Some v) -> is_flt v = false ->
   print_argument_m e (XRef n) = inl (side ++ value_bytes v, Some tt).
 Proof. exact print_call_l. Qed.
 Print Assumptions print_call_output_then_value.
@@ -334,7 +394,7 @@ Print Assumptions println_nested_error_keeps_prefix.
 Theorem println_nested_format_path : forall e nl pre f post vs outs out,
   find_fmt_x (pre ++ XQuoted f :: post) = Some (pre, f, post) -> 2 <= List.length (pre ++ XQuoted f :: post) ->
   Forall2 (arg_ok e) pre vs ->
-  Forall2 (fun a o => eval_arg_m e a = inl (fst o, Some (snd o))) post outs ->
+  Forall2 (fun a o => eval_arg_m e a = inl (fst o, Some (snd o)) /\ is_flt (snd o) = false) post outs ->
   render f (map (fun o => farg_of (snd o)) outs) = Some out ->
   stmt_m e (XPrint nl (pre ++ XQuoted f :: post)) =
   inl (List.concat (map (fun v => v ++ [" "]) vs) ++ List.concat (map fst outs) ++ cstr out
